@@ -847,22 +847,38 @@ class SupplyHarness(object):
                 cand = sorted(b for b in blocks if b.startswith("function.") or ".method." in b)
                 if cand:
                     self.block, self.comment = cand[0], comment_of(fname)
+                    # a second block of the same file whose name shares the first component (function. / class.)
+                    same = [b for b in cand[1:] if b.split(".")[0] == cand[0].split(".")[0]]
+                    self.block2 = same[-1] if same else None
                     break
         if self.block is None:
             raise Unsupported("no function block in group %s of %s" % (self.group, self.libname))
         fn = "user_%s%s" % (self.group, self.ext)
         body = "%s splicer begin %s\nTAG_%s();\n%s splicer end %s\n" % (self.comment, self.block, self.group, self.comment, self.block)
         d = pipeline.load_yaml(LIBS[self.libname])
+        names = [fn]
+        tmpfiles = {fn: body}
+        # the user's code may be spread over several files of one group: a second file (before or after the first) supplies
+        # another block whose name begins with the same component
+        self.second = 0
+        if self.block2 is not None:
+            sv = z3.Int("second_file")
+            e.assume(z3.And(sv >= 0, sv <= 2))
+            self.second = e.choose(sv)
+        if self.second:
+            fn2 = "more_%s%s" % (self.group, self.ext)
+            tmpfiles[fn2] = "%s splicer begin %s\nTAG2_%s();\n%s splicer end %s\n" % (self.comment, self.block2, self.group, self.comment, self.block2)
+            names = [fn, fn2] if self.second == 1 else [fn2, fn]
         if self.via == "yaml":
-            d["splicer"] = {self.group: [fn]}
+            d["splicer"] = {self.group: names}
         import yaml
         text = yaml.safe_dump(d)
-        tmpfiles = {fn: body}
-        return run_main_with_files(text, tmpfiles, [fn] if self.via == "cmdline" else [])
+        return run_main_with_files(text, tmpfiles, names if self.via == "cmdline" else [])
 
     def witness(self, what):
         return {"level": "yaml-splicer-file", "via": self.via, "library": self.libname, "group": self.group, "extension": self.ext,
-                "block": self.block, "user_lines": ["TAG_%s();" % self.group], "what": what}
+                "block": self.block, "user_lines": ["TAG_%s();" % self.group], "second_file": getattr(self, "second", 0),
+                "second_block": getattr(self, "block2", None), "what": what}
 
     def judge(self, e, kind, value):
         cls = "supply/%s/%s" % (self.libname, self.group)
@@ -872,6 +888,7 @@ class SupplyHarness(object):
         fail = None
         info = default_run(self.libname)
         seen = False
+        seen2 = False
         for f, p in value.files.items():
             g = group_of(f)
             if g is None:
@@ -888,12 +905,19 @@ class SupplyHarness(object):
                         if txt != ["TAG_%s();" % self.group]:
                             fail = "block %s of the %s output does not hold the body from the file listed under '%s:' (%s): %r" % (
                                 name, g, self.group, self.ext, txt[:3])
-                    elif any(t.startswith("TAG_") for t in txt):
+                    elif self.second and g == self.group and name == self.block2:
+                        seen2 = True
+                        if txt != ["TAG2_%s();" % self.group]:
+                            fail = "block %s of the %s output does not hold the body from the second %s file (%s; files given as %s): %r" % (
+                                name, g, self.group, self.ext, "first, second" if self.second == 1 else "second, first", txt[:3])
+                    elif any(t.startswith("TAG") for t in txt):
                         fail = "the body supplied for group %s appears in %s block %s" % (self.group, g, name)
             if fail:
                 break
         if not fail and not seen:
             fail = "block %s is missing from the %s output" % (self.block, self.group)
+        if not fail and self.second and not seen2:
+            fail = "block %s is missing from the %s output" % (self.block2, self.group)
         if self.twin and not fail:
             fail = "reachability twin"
         if fail:
@@ -1093,6 +1117,7 @@ def confirm(w):
 
         def run_s(e):
             e.assume(z3.Int("ext") == (SUPPLY_EXT if w.get("via", "yaml") == "yaml" else CMD_EXT)[w["group"]].index(w["extension"]))
+            e.assume(z3.Int("second_file") == w.get("second_file", 0))
             return h.run(e)
         Engine().explore(run_s, lambda e, kind, value: res.__setitem__("j", h.judge(e, kind, value)))
         v = res.get("j", {}).get("violation")
